@@ -15,8 +15,10 @@ Definition dOp (s : sx) : option (option op) :=
   | SL [SZ 4%Z; a] => a' <-? dN a ;; Some (Some (OCreate a'))
   | SL [SZ 5%Z; _] => Some (Some OSnap)
   | SL [SZ 6%Z; i] => i' <-? dNat i ;; Some (Some (ORevert i'))
-  | SL [SZ 7%Z] => Some (Some OFinalise)
-  | SL [SZ 8%Z] => Some (Some OFinalise)      (* Commit and reopen: see step_sdb *)
+  | SL [SZ 7%Z] => Some (Some (OFinalise true))
+  | SL [SZ 8%Z] => Some (Some (OFinalise true))      (* Commit and reopen: see step_sdb *)
+  | SL [SZ 10%Z] => Some (Some (OFinalise false))    (* Finalise(false): empty accounts stay *)
+  | SL [SZ 11%Z] => Some (Some (OFinalise false))    (* Commit(false) and reopen *)
   | SL [SZ 9%Z] => Some None
   | _ => None
   end.
@@ -48,7 +50,7 @@ Definition step_sdb (acc : jstate * list N * N) (s : sx) : jstate * list N * N :
     match dOp o, mapM dRead rd with
     | Some (Some op), Some rs =>
       (* a StateDB reopened at the committed root is a new object: its revision ids start again *)
-      let reopen := match o with SL [SZ 8%Z] => true | _ => false end in
+      let reopen := match o with SL [SZ 8%Z] => true | SL [SZ 11%Z] => true | _ => false end in
       let st1 := j_step st op in
       let st' := if reopen then mkJ (j_w st1) [] [] 0 else st1 in
       (st', codes ++ (if reads_eqb (j_w st') 0 rs then [] else [i]), N.succ i)
